@@ -328,7 +328,7 @@ class _convert_log:
 
 # ---- the list level: every record of the document is converted once, in order --------------------
 
-from pyvc.speclib import abstract_result
+from pyvc.speclib import abstract_result, last_call_raised
 
 RecordList = Ext('boardlist', dict(n=Int(0), reads=TraceList(), item_shape=Const(OpaqueVal('record'))))
 LogDocument = Ext('jsonfile', dict(doc=Dict({'logs': RecordList})))
@@ -355,6 +355,18 @@ class _parse_board_logs:
     modifies = ['fp']
     loops = {0: LoopContract(invariant=_list_inv, havoc_heap=dict(outputs=TraceReset()),
                              body_ensures=dict(record_converted_in_place=_log_converted_in_place))}
+    # C12: nothing but a record outside the format makes the reader give up
+    def excensures_only_a_record_is_refused(frame):
+        return last_call_raised(None, convert_board_log)
+
+    sample_params = lambda rng: _sample_document(rng, 'logs')
+    native_excensures_well_formed_document_accepted = (
+        'excpost/only_a_record_is_refused', lambda old, exc_value: not _is_document(old.fp))
+    native_ensures_all_boards_in_order = (
+        'loop0.body/record_converted_in_place',
+        lambda old, result: not _is_document(old.fp) or same(
+            result, [convert_board_log(d) for d in _records(old.fp)]))
+
     note = ('the document is what json.load returns (assumed: for a file written by JsonLogWriter, '
             '{"logs": [the records written, in order]}); each record is converted by '
             'convert_board_log (its own contract) exactly once, in order')
@@ -373,8 +385,40 @@ class _parse_board_settings_json:
     loops = {0: LoopContract(invariant=_list_inv, havoc_heap=dict(outputs=TraceReset()),
                              body_ensures=dict(
                                  record_converted_in_place=_setting_converted_in_place))}
+    # C12/C17: both kinds of document are accepted whatever the number of boards (none included);
+    # nothing but a record outside the format makes the reader give up
+    def excensures_only_a_record_is_refused(frame):
+        return last_call_raised(None, convert_board_setting)
+
+    # (native forms, for documents that can be made real)
+    sample_params = lambda rng: _sample_document(rng, rng.choice(['logs', 'board_settings']))
+    native_excensures_well_formed_document_accepted = (
+        'excpost/only_a_record_is_refused', lambda old, exc_value: not _is_document(old.fp))
+    native_ensures_all_boards_in_order = (
+        'loop0.body/record_converted_in_place',
+        lambda old, result: not _is_document(old.fp) or same(
+            result, [convert_board_setting(d) for d in _records(old.fp)]))
+
     note = ('a game-log document ("logs") and a board-settings document ("board_settings") are '
             'both accepted; every record is converted by convert_board_setting once, in order')
+
+
+def _sample_document(rng, key):
+    """A real document of 0..3 records as the format prescribes them."""
+    import io
+    import json
+    recs = [_sample_setting(rng, key == 'logs')['data'] for _ in range(rng.choice([0, 0, 1, 2, 3]))]
+    return dict(fp=io.StringIO(json.dumps({key: recs})))
+
+
+def _is_document(fp):
+    return hasattr(fp, 'getvalue')
+
+
+def _records(fp):
+    import json
+    doc = json.loads(fp.getvalue())
+    return doc['logs'] if 'logs' in doc else doc['board_settings']
 
 
 def _kk(ctx):
